@@ -455,3 +455,56 @@ func MayFollow(a, b ssa.Instruction) bool {
 	}
 	return ReachableFrom(a.Block())[b.Block()]
 }
+
+// Alt is one acceptable (condition, truth value) alternative.
+type Alt struct {
+	Pat P
+	Val bool
+}
+
+// PathsCarry reports whether every path to block target carries at least
+// one of the alternatives: either a dominating fact, or — at the nearest
+// join on the dominator chain — every incoming edge carries one
+// (recursively). This decides guards written with || and early returns,
+// which plain dominance cannot see.
+func (c *Ctx) PathsCarry(target *ssa.BasicBlock, alts []Alt) bool {
+	return c.pathsCarry(target, alts, map[*ssa.BasicBlock]bool{})
+}
+
+func (c *Ctx) pathsCarry(target *ssa.BasicBlock, alts []Alt, seen map[*ssa.BasicBlock]bool) bool {
+	if seen[target] {
+		return false
+	}
+	seen[target] = true
+	match := func(fs []Fact) bool {
+		for _, f := range fs {
+			for _, a := range alts {
+				if f.Val == a.Val {
+					if _, ok := Match(a.Pat, f.Cond); ok {
+						return true
+					}
+				}
+			}
+		}
+		return false
+	}
+	for d := target; d != nil; d = d.Idom() {
+		if match(c.FactsAt(d)) {
+			return true
+		}
+		if len(d.Preds) > 1 {
+			all := true
+			for _, p := range d.Preds {
+				if match(edgeFact(c, p, d)) {
+					continue
+				}
+				if !c.pathsCarry(p, alts, seen) {
+					all = false
+					break
+				}
+			}
+			return all
+		}
+	}
+	return false
+}
